@@ -124,6 +124,8 @@ def sample(d, rng, *p):
 
 
 def support(d, *p):
+    if d == "categorical":
+        return list(range(int(np.shape(p[0])[-1])))
     s = DISTS[d].get("support")
     if s is None:
         raise KeyError("no finite support: " + d)
